@@ -188,7 +188,10 @@ func runC10(c *Ctx) {
 			c.Undecided("parseDirectives no longer appends to its ignores list")
 		}
 		// the diagnostic for a reasonless directive
-		noReason := ComplementEdges(hasReason)
+		noReason := IntCmpConstEdges(pd, func(v ssa.Value) bool {
+			call, ok := v.(*ssa.Call)
+			return ok && IsCallTo(call, "builtin.len") && Derives(call.Call.Args[0], IsFieldOf("SerializedDirective", "Arguments"))
+		}, true, func(lo, hi int64) bool { return hi <= 1 })
 		sevErr := constIntOf(c, "lintcmd", "severityError")
 		foundSev, foundCat := false, false
 		Instrs(pd, false, func(in ssa.Instruction) {
